@@ -242,7 +242,7 @@ def pmap(fn, jobs):
     if n <= 1 or len(jobs) < 8:
         return [fn(j) for j in jobs]
     with mp.get_context("fork").Pool(n) as pool:
-        return pool.map(fn, jobs, chunksize=4)
+        return pool.map(fn, jobs, chunksize=max(1, min(4, len(jobs) // (n * 2) or 1)))
 
 
 def resolve_rule(R, ctx, H, tier):
